@@ -12,8 +12,8 @@ run=$(grep -o 'func Test[A-Za-z0-9_]*' $demo | head -1 | sed 's/func //')
 echo "== demo without patch ($run)"; (cd $WT && timeout 900 go test -count=1 -run "$run" . 2>&1 | tail -3)
 git apply $M/patch.diff && echo "== demo WITH patch"; (cd $WT && timeout 900 go test -count=1 -run "$run" . 2>&1 | tail -5)
 cd $WT && git checkout -q -- . && git clean -fdq
-rm -rf /dev/shm/evidence.keep && cp -r /verif/evidence /dev/shm/evidence.keep
+rm -rf /dev/shm/evidence.keep.local && cp -r /verif/evidence /dev/shm/evidence.keep.local
 cd /repo && git apply $M/patch.diff || exit 1
 for pid in "$@"; do echo "== check $pid with patch"; (cd /verif && timeout 1800 ./check $pid 2>&1 | tail -3); done
 cd /repo && git checkout -q -- . && git clean -fdq && git status --short
-rm -rf /verif/evidence && mv /dev/shm/evidence.keep /verif/evidence
+rm -rf /verif/evidence && mv /dev/shm/evidence.keep.local /verif/evidence
